@@ -27,6 +27,10 @@ func (c *CmdWrapper) Stop(sig int, parentOnly bool) error {
 		Bool("parentOnly", parentOnly).
 		Msg("Stop Unix process.")
 
+	if f := verifFake(c); f != nil {
+		return f.Stop(sig, parentOnly)
+	}
+
 	if parentOnly {
 		return c.cmd.Process.Signal(syscall.Signal(sig))
 	}
